@@ -43,7 +43,7 @@ def limit(mem_gb):
 
 
 def kani_cmd(h, target_dir, extra=()):
-    crate_dir = HARNESS_OVERRIDE or os.path.join(ROOT, h.crate)
+    crate_dir = (HARNESS_OVERRIDE if h.crate == 'harness' else None) or os.path.join(ROOT, h.crate)
     cmd = ['cargo', 'kani', '--features', h.prop.lower(), '--harness', f"gen_{h.prop.lower()}::{h.name}", '--exact',
            '--target-dir', target_dir, '--no-assertion-reach-checks']
     if h.stub:
@@ -197,13 +197,13 @@ def extract_playback(h, wdir, logdir):
 
 
 def native_replay(h, replay_path, profile, logdir):
-    crate_dir = HARNESS_OVERRIDE or os.path.join(ROOT, h.crate)
+    crate_dir = (HARNESS_OVERRIDE if h.crate == 'harness' else None) or os.path.join(ROOT, h.crate)
     env = dict(os.environ)
     env.update(KANI_ENV)
-    env['RUSTUP_TOOLCHAIN'] = NATIVE_TOOLCHAIN
+    env['RUSTUP_TOOLCHAIN'] = NATIVE_TOOLCHAIN if h.crate == 'harness' else 'nightly-2026-08-21'  # the nightly crate needs generic_const_exprs
     env['VERIF_REPLAY'] = replay_path
     env['RUSTFLAGS'] = env.get('RUSTFLAGS', '') + ' -Awarnings'
-    cmd = ['cargo', 'test', '--offline', '--lib', '--features', h.prop.lower(), '--target-dir', os.path.join(WORK, 'native')]
+    cmd = ['cargo', 'test', '--offline', '--lib', '--features', h.prop.lower(), '--target-dir', os.path.join(WORK, 'native' if h.crate == 'harness' else 'native-nightly')]
     if profile == 'release':
         cmd.append('--release')
     cmd += ['--', '--exact', f"gen_{h.prop.lower()}::{h.name}", '--test-threads', '1', '--nocapture']
@@ -273,7 +273,8 @@ def main(argv=None):
     seed = int(os.environ.get('VERIF_SEED', '0') or 0)
     t0 = time.time()
     if not HARNESS_OVERRIDE:
-        gen.render('harness')
+        for c in sorted({h.crate for h in spec.REG}):
+            gen.render(c)
         gen.render_lib('harness')
     os.makedirs(WORK, exist_ok=True)
     logdir = os.path.join(WORK, 'logs', prop)
@@ -313,7 +314,7 @@ def main(argv=None):
                 while mem['free'] < need:
                     cv.wait()
                 mem['free'] -= need
-            wdir = os.path.join(WORK, f"kani-{prop}-{j.h.mode}-w{k}")
+            wdir = os.path.join(WORK, f"kani-{prop}-{j.h.mode}-w{k}" + ('' if j.h.crate == 'harness' else '-n'))
             try:
                 run_job(j, wdir, logdir, a.cap_scale)
             finally:
@@ -379,7 +380,7 @@ def main(argv=None):
         write_evidence(prop, a.tier, seed, jobs, violations, findings, wall)
     if not a.keep:
         for d in os.listdir(WORK):
-            if d.startswith(f"kani-{prop}-") or d == 'native':
+            if d.startswith(f"kani-{prop}-") or d in ('native', 'native-nightly'):
                 shutil.rmtree(os.path.join(WORK, d), ignore_errors=True)
     held = sum(1 for j in jobs if j.state == 'held')
     log(f"{prop} tier={a.tier}: {held}/{len(jobs)} harnesses held, {len(violations)} violations, "
